@@ -605,9 +605,31 @@ def _eval_view(cases):
                      f"carray={1 if (v.flags.c_contiguous and v.flags.aligned) else 0}")
     drvs = core.drive(lines)
     import mahotas.labeled
+    # the complete kernel model (labeled_foldl over views) against the compiled labeled_sum, random labels (some -1)
+    llines, labs = [], []
+    for c, v in zip(cases, views):
+        n = int(np.prod(c['shape']))
+        r = random.Random(json.dumps(c, sort_keys=True))
+        lab = np.array([r.randint(-1, 3) for _ in range(n)], dtype=np.intc).reshape(c['shape'])
+        labs.append(lab)
+        cs, acc = [], 1
+        for d in reversed(c['shape']):
+            cs.insert(0, acc)
+            acc *= d
+        llines.append(f"c08 kind=lsum abase={c['base']} shape={gen.enc_shape(c['shape'])} astrides={gen.enc_arr(list(c['strides']))} "
+                      f"amem={gen.enc_arr(list(range(c['buf'])))} lbase=0 lstrides={gen.enc_arr(cs)} lmem={gen.enc_arr(lab)} "
+                      f"maxlabel={max(0, int(lab.max()) + 1) if n else 0}")
+    ldrvs = core.drive(llines)
     out = []
-    for c, v, drv in zip(cases, views, drvs):
+    for c, v, drv, lab, ldrv in zip(cases, views, drvs, labs, ldrvs):
         findings = []
+        if lab.size and lab.max() >= 0:
+            real_sum = [int(x) for x in mahotas.labeled.labeled_sum(v, lab).tolist()]
+            logical_sum = [int(np.asarray(v)[lab == k].sum()) for k in range(int(lab.max()) + 1)]
+            if real_sum != logical_sum:
+                findings.append(dict(kind='property', key='labeled_sum:strided-array', detail=dict(real=real_sum, logical=logical_sum)))
+            if core.ints(ldrv['sum']) != real_sum:
+                findings.append(dict(kind='model', key='view:labeled-fold-model', detail=dict(real=real_sum, model=core.ints(ldrv['sum']))))
         truth = [int(x) for x in v.ravel(order='C').tolist()]          # numpy's own element access: value == address
         spec = core.ints(drv['spec'])
         if spec != truth:
